@@ -83,6 +83,7 @@ pub fn gen_text(s: &Shape, rng: &mut Rng, mode: u8, depth: usize) -> String {
         Shape::F64 => match rng.below(6) {
             0 => rng.pick(crate::gen::NUM_POOL).to_string(),
             1 => int_text(rng, true, 64, false),
+            2 => crate::gen::boundary_number(rng),
             _ => crate::gen::gen_number(rng, true),
         },
         Shape::Char => {
